@@ -420,7 +420,8 @@ func c02Body(r *Run) {
 	}
 	r.Sim.Quiesce()
 	r.Logf("--- closing router")
-	if err := rig.Router.Close(); err != nil {
+	if err := rig.Router.Close(); err != nil && !slowClose {
+		// (after a Close that timed out, what a repeated Close returns is not fixed: nil or the remembered time-out)
 		r.Fail("C02.R7", "Router.Close returned an error with idle handlers", "%v", err)
 	}
 }
